@@ -558,6 +558,13 @@ static void do_op (char *op)
     guint len = I (4); guint8 *d = g_malloc (len + 1); for (guint k = 0; k < len; k++) d[k] = (I (5) * 131 + k * 13 + (k >> 7)) & 0xff; int i = I (1);
     gint r = nice_agent_send (A[i].agent, I (2), I (3), len, (gchar *) d); T ("api %d sendstream %d %d %u %d =%d", i, I (2), I (3), len, I (5), r);
     if (r > 0 && I (2) < 8 && I (3) < 4) { A[i].txh[I (2)][I (3)] = roll (A[i].txh[I (2)][I (3)], d, r); A[i].txn[I (2)][I (3)] += r; } g_free (d); }
+  else if (!strcmp (a[0], "sendbatch")) { /* sendbatch,i,s,c,len1.len2...,seed : reliable mode, several messages in ONE nice_agent_send_messages_nonblocking call (each message goes out whole or not at all) */
+    int i = I (1); char **z = g_strsplit (a[4], ".", 8); int nm = g_strv_length (z); GOutputVector ov[8]; NiceOutputMessage om[8]; guint8 *d[8];
+    for (int k = 0; k < nm; k++) { gsize len = atol (z[k]); d[k] = g_malloc (len + 1); for (gsize j = 0; j < len; j++) d[k][j] = ((I (5) + k) * 131 + j * 13 + (j >> 7)) & 0xff; ov[k].buffer = d[k]; ov[k].size = len; om[k].buffers = &ov[k]; om[k].n_buffers = 1; }
+    GError *ge = NULL; gint r = nice_agent_send_messages_nonblocking (A[i].agent, I (2), I (3), om, nm, NULL, &ge);
+    T ("api %d sendbatch %d %d %s %d err=%d =%d", i, I (2), I (3), a[4], I (5), ge ? ge->code : -1, r);
+    for (int k = 0; k < nm; k++) { if (k < r && I (2) < 8 && I (3) < 4) { A[i].txh[I (2)][I (3)] = roll (A[i].txh[I (2)][I (3)], d[k], ov[k].size); A[i].txn[I (2)][I (3)] += ov[k].size; } g_free (d[k]); }
+    g_clear_error (&ge); g_strfreev (z); }
   else if (!strcmp (a[0], "streamhash")) { int i = I (1); guint s_ = I (2), c_ = I (3); if (s_ < 8 && c_ < 4) T ("strm %d %u %u tx=%" G_GUINT64_FORMAT ":%u rx=%" G_GUINT64_FORMAT ":%u", i, s_, c_, A[i].txn[s_][c_], A[i].txh[s_][c_], A[i].rxn[s_][c_], A[i].rxh[s_][c_]); }
   else if (!strcmp (a[0], "remove_stream")) { nice_agent_remove_stream (A[I (1)].agent, I (2)); T ("api %d remove_stream %d", I (1), I (2)); }
   else if (!strcmp (a[0], "consent_lost")) { gboolean r = nice_agent_consent_lost (A[I (1)].agent, I (2), I (3)); T ("api %d consent_lost %d %d =%d", I (1), I (2), I (3), r); }
@@ -590,6 +597,10 @@ static void do_op (char *op)
   else if (!strcmp (a[0], "attach")) { gboolean r = nice_agent_attach_recv (A[I (1)].agent, I (2), I (3), ctx, cb_recv, &A[I (1)]); T ("api %d attach_recv %d %d =%d", I (1), I (2), I (3), r); }
   else if (!strcmp (a[0], "setremote")) { GSList *r = nice_agent_get_remote_candidates (A[I (1)].agent, I (2), I (3)); gboolean ok = FALSE; if (r) ok = nice_agent_set_selected_remote_candidate (A[I (1)].agent, I (2), I (3), r->data);
     T ("api %d set_selected_remote_candidate %d %d =%d", I (1), I (2), I (3), ok); g_slist_free_full (r, (GDestroyNotify) nice_candidate_free); }
+  else if (!strcmp (a[0], "setalien")) { /* setalien,i,s,c,kind : forced selection of a remote candidate no local candidate can be paired with (0: IPv6 address on an IPv4-only agent, 1: TCP-passive with ICE-TCP off) */
+    NiceCandidate *rc = nice_candidate_new (NICE_CANDIDATE_TYPE_HOST); rc->stream_id = I (2); rc->component_id = I (3); rc->transport = I (4) == 1 ? NICE_CANDIDATE_TRANSPORT_TCP_PASSIVE : NICE_CANDIDATE_TRANSPORT_UDP;
+    nice_address_set_from_string (&rc->addr, I (4) == 0 ? "fd00::77" : "10.0.7.7"); nice_address_set_port (&rc->addr, 5000); rc->base_addr = rc->addr; g_strlcpy (rc->foundation, "alien", NICE_CANDIDATE_MAX_FOUNDATION);
+    gboolean ok = nice_agent_set_selected_remote_candidate (A[I (1)].agent, I (2), I (3), rc); T ("api %d set_selected_remote_candidate %d %d alien%d =%d", I (1), I (2), I (3), I (4), ok); nice_candidate_free (rc); }
   else if (!strcmp (a[0], "forget")) { gboolean r = nice_agent_forget_relays (A[I (1)].agent, I (2), I (3)); T ("api %d forget_relays %d %d =%d", I (1), I (2), I (3), r); }
   else if (!strcmp (a[0], "close")) { int i = I (1); if (A[i].agent) { nice_agent_close_async (A[i].agent, cb_closed, &A[i]); T ("api %d close_async", i); } }
   else if (!strcmp (a[0], "setcreds")) { gboolean r = nice_agent_set_local_credentials (A[I (1)].agent, I (2), a[3], a[4]); T ("api %d set_local_credentials %d =%d", I (1), I (2), r); }
